@@ -136,6 +136,12 @@ class LocalDef:
     defaults: dict
 
 
+class Vec(list):
+    """A concrete one-dimensional numpy vector (label vectors, boolean selections of them): the value of
+    numpy's set routines on concrete sequences.  A list, so everything written for lists reads it; in
+    addition `~v`, `v[mask]`, `v.size`, `v.tolist()` ... have their numpy meaning."""
+
+
 @dataclass(eq=False)
 class RawFunc:
     """A package function as handed to its own decorators: calling it runs the undecorated body."""
@@ -300,6 +306,13 @@ class Interp:
         raise Undecided(f"unbound name {name} in {self.func.qual}")
 
     def get_attr(self, base, attr: str, node):
+        if isinstance(base, Vec):
+            if attr == "size":
+                return len(base)
+            if attr == "shape":
+                return (len(base),)
+            if attr == "ndim":
+                return 1
         if isinstance(base, RawFunc):
             f_ = base.func
             if attr == "__name__":
@@ -420,7 +433,52 @@ class Interp:
         """Enum-like member access Class.MEMBER -> symbol."""
         return EnumSym(cls, attr)
 
+    def _vec_call(self, name: str, args: list, kwargs: dict, node):
+        """numpy's set routines and selections on concrete sequences (lists / tuples / Vec of scalars)"""
+        short = name[6:]
+        seq = lambda x: isinstance(x, (list, tuple)) and not any(isinstance(y, (list, tuple, dict, Unknown)) for y in x)
+        def member(x, ys):
+            return any(self.truth(self.compare(ast.Eq(), x, y, node), node) for y in ys)
+        def ordered(xs):
+            xs = list(xs)
+            return Vec(sorted(xs)) if all(isinstance(x, (int, float, Fraction)) and not isinstance(x, bool) for x in xs) else Vec(xs)
+        def dedupe(xs):
+            out = []
+            for x in xs:
+                if not member(x, out):
+                    out.append(x)
+            return out
+        if short in ("intersect1d", "setdiff1d", "union1d", "setxor1d") and len(args) == 2 and seq(args[0]) and seq(args[1]) and not (set(kwargs) - {"assume_unique"}):
+            a, b = list(args[0]), list(args[1])
+            if short == "intersect1d":
+                return ordered(dedupe(x for x in a if member(x, b)))
+            if short == "setdiff1d":
+                return ordered(dedupe(x for x in a if not member(x, b)))
+            if short == "union1d":
+                return ordered(dedupe(a + b))
+            return ordered(dedupe([x for x in a if not member(x, b)] + [x for x in b if not member(x, a)]))
+        if short in ("isin", "in1d") and len(args) == 2 and seq(args[1]) and not (set(kwargs) - {"assume_unique", "invert", "kind"}):
+            inv = kwargs.get("invert", False)
+            if isinstance(inv, bool):
+                if seq(args[0]):
+                    return Vec((member(x, args[1]) != inv) for x in args[0])
+                if isinstance(args[0], (int, Sym)) and not isinstance(args[0], bool):
+                    return member(args[0], args[1]) != inv
+        if short in ("asarray", "array", "atleast_1d", "asanyarray", "ascontiguousarray") and len(args) == 1 and seq(args[0]) and not (set(kwargs) - {"dtype", "copy"}) and isinstance(args[0], (Vec, tuple)):
+            return Vec(args[0])
+        if short in ("logical_not",) and len(args) == 1 and isinstance(args[0], Vec) and all(isinstance(b, bool) for b in args[0]):
+            return Vec(not b for b in args[0])
+        if short in ("count_nonzero", "sum") and len(args) == 1 and isinstance(args[0], Vec) and all(isinstance(b, bool) for b in args[0]) and not kwargs:
+            return sum(1 for b in args[0] if b)
+        if short in ("any", "all") and len(args) == 1 and isinstance(args[0], Vec) and all(isinstance(b, bool) for b in args[0]) and not kwargs:
+            return any(args[0]) if short == "any" else all(args[0])
+        return NotImplemented
+
     def external_call(self, name: str, args: list, kwargs: dict, node):
+        if name.startswith("numpy.") and args:
+            r_ = self._vec_call(name, args, kwargs, node)
+            if r_ is not NotImplemented:
+                return r_
         if name in ("numpy.iinfo", "numpy.finfo") and args and isinstance(args[0], Sym):
             t = args[0].name.split(".")[-1].split(":")[-1]
             table = {"uint8": (8, 0, 2**8 - 1), "uint16": (16, 0, 2**16 - 1), "uint32": (32, 0, 2**32 - 1), "uint64": (64, 0, 2**64 - 1), "int8": (8, -(2**7), 2**7 - 1), "int16": (16, -(2**15), 2**15 - 1), "int32": (32, -(2**31), 2**31 - 1), "int64": (64, -(2**63), 2**63 - 1)}
@@ -958,6 +1016,8 @@ class Interp:
         v = self.eval(e.operand)
         if isinstance(e.op, ast.Not):
             return not self.truth(v, e.operand)
+        if isinstance(e.op, ast.Invert) and isinstance(v, Vec) and all(isinstance(b, bool) for b in v):
+            return Vec(not b for b in v)
         if isinstance(v, (int, float, Fraction)) and not isinstance(v, bool) or isinstance(v, bool):
             if isinstance(e.op, ast.USub):
                 return -v
@@ -1052,9 +1112,12 @@ class Interp:
         idx = self.eval_index(e.slice)
         if isinstance(base, (tuple, list, str)) and isinstance(idx, (int, slice)) and not isinstance(idx, bool):
             try:
-                return base[idx]
+                r_ = base[idx]
+                return Vec(r_) if isinstance(base, Vec) and isinstance(idx, slice) else r_
             except IndexError:
                 raise RaiseSignal("IndexError", e)
+        if isinstance(base, Vec) and isinstance(idx, list) and len(idx) == len(base) and all(isinstance(b, bool) for b in idx):
+            return Vec(x for x, b in zip(base, idx) if b)  # boolean selection
         if isinstance(base, dict):
             k = _hashable(idx)
             if k in base:
